@@ -33,7 +33,7 @@ class _CQASMv1Creator(IRVisitor):
 
     def visit_measure(self, measure: Measure) -> None:
         qubit_argument = measure.arguments[0].accept(self)  # type: ignore[index]
-        self.cqasmv1_string += f"{measure.name}_z {qubit_argument}\n"
+        self.cqasmv1_string += f"measure_z {qubit_argument}\n"
 
     def visit_reset(self, reset: Reset) -> None:
         qubit_argument = reset.arguments[0].accept(self)  # type: ignore[index]
